@@ -3,7 +3,7 @@
      binary build   enc_event kvs      (Enc/CborEnc.v)   --decoder-->  text t1
      JSON build     json_event kvs     (Enc/JsonEv.v)    =  t2 ++ newline
    and t1, t2 are JSON texts of equivalent values ([jv_equiv]). *)
-From Coq Require Import QArith.
+From Coq Require Import QArith Qabs Lqa.
 From Verif Require Import Base.Prelude Base.Decimal Base.Utf8 Base.JsonSpec Base.CborSpec.
 From Verif Require Import Enc.CborEnc Enc.CborDec Proofs.CborSpecP Proofs.CborEncP Proofs.CborDecP Proofs.Cbor2JsonP.
 From Verif Require Import Enc.JsonEnc Enc.JsonEv Proofs.DecimalP Proofs.JsonEncP.
@@ -144,4 +144,680 @@ Lemma slice_json_arr {A} (g : A -> list N) l : slice_txt g l = json_arr (map g l
 Proof.
   destruct l as [|x r]; [reflexivity|]. unfold slice_txt, json_arr. cbn [map].
   rewrite <- flat_join. rewrite <- !app_assoc. reflexivity.
+Qed.
+
+Lemma hex_txt_agree s : CborDec.quote (hexString s) = hex_txt s.
+Proof. reflexivity. Qed.
+
+Lemma data_url_agree s : data_url s = cbor_txt (b64enc (length s) s).
+Proof. reflexivity. Qed.
+
+Lemma nan32_agree b : CborEnc.f32_is_nan b = f_isnan true b.
+Proof. reflexivity. Qed.
+Lemma nan64_agree b : CborEnc.f64_is_nan b = f_isnan false b.
+Proof. reflexivity. Qed.
+
+
+(* ---- joins ---- *)
+Lemma join_comma_snoc ts t : ts <> [] -> join_comma (ts ++ [t]) = join_comma ts ++ [44] ++ t.
+Proof.
+  induction ts as [|a ts IH]; intros H; [congruence|]. destruct ts as [|b ts].
+  - reflexivity.
+  - change ((a :: b :: ts) ++ [t]) with (a :: b :: (ts ++ [t])). rewrite !join_comma_cons.
+    change (b :: ts ++ [t]) with ((b :: ts) ++ [t]). rewrite IH by discriminate. rewrite <- !app_assoc. reflexivity.
+Qed.
+
+Lemma join_comma_nonempty ts : ts <> [] -> Forall (fun t => t <> []) ts -> join_comma ts <> [].
+Proof.
+  intros Hne F. destruct ts as [|a ts]; [congruence|]. inversion F; subst.
+  destruct ts; [cbn; auto|]. rewrite join_comma_cons. destruct a; [congruence|discriminate].
+Qed.
+
+Lemma join_pairs_snoc ps k t : ps <> [] -> join_pairs (ps ++ [(k, t)]) = join_pairs ps ++ [44] ++ k ++ [58] ++ t.
+Proof.
+  induction ps as [|[a x] ps IH]; intros H; [congruence|]. destruct ps as [|[b y] ps].
+  - cbn [app join_pairs]. rewrite <- !app_assoc. reflexivity.
+  - change (((a, x) :: (b, y) :: ps) ++ [(k, t)]) with ((a, x) :: (b, y) :: (ps ++ [(k, t)])). rewrite !join_pairs_cons.
+    change ((b, y) :: ps ++ [(k, t)]) with (((b, y) :: ps) ++ [(k, t)]). rewrite IH by discriminate. rewrite <- !app_assoc. reflexivity.
+Qed.
+
+Definition good_txt (t : list N) : Prop := t <> [] /\ last_byte t <> 0x7B.
+
+Lemma join_pairs_good ps : ps <> [] -> Forall (fun p => good_txt (snd p)) ps -> good_txt (join_pairs ps).
+Proof.
+  induction ps as [|[k t] ps IH]; intros Hne F; [congruence|]. inversion F as [|? ? [Ht Hl] F']; subst. cbn [snd] in *.
+  destruct ps as [|[k2 t2] ps2].
+  - cbn [join_pairs]. split; [destruct k; discriminate|]. rewrite !app_assoc. rewrite last_byte_app; auto.
+  - rewrite join_pairs_cons. destruct (IH ltac:(discriminate) F') as [Hn Hl2]. split; [destruct k; discriminate|].
+    rewrite !app_assoc. rewrite last_byte_app; auto.
+Qed.
+
+Lemma Json_good t v : Json t v -> good_txt t.
+Proof. apply Json_last. Qed.
+
+Section C08.
+Variable Orc : oracle.                     (* the decoder's side of the Go library *)
+Variable JO : joracle.                     (* the JSON encoder's side *)
+Variable f64_of_time : Z -> N -> N.        (* the binary encoder's float conversions *)
+Variable f64_of_dur : Z -> Z -> N.
+Hypothesis f64_of_time_range : forall s n, f64_of_time s n < 2 ^ 64.
+Hypothesis f64_of_dur_range : forall d u, f64_of_dur d u < 2 ^ 64.
+
+(* ---- the oracle hypotheses: both builds call the same Go functions ---- *)
+(* the fval of a bit pattern is about that bit pattern *)
+Hypothesis H_bits32 : forall b, f_bits (jo_f32 JO b) = b.
+Hypothesis H_bits64 : forall b, f_bits (jo_f64 JO b) = b.
+(* the decoder's strconv.AppendFloat(.., 'f', -1, ..) is the JSON encoder's 'f' text *)
+Hypothesis H_f32 : forall b, o_f32 Orc b = Some (f_txt_f (jo_f32 JO b)).
+Hypothesis H_f64 : forall b, o_f64 Orc b = Some (f_txt_f (jo_f64 JO b)).
+(* strconv's correctness: both texts are JSON numbers and denote the same number *)
+Definition float_texts_agree (f : fval) : Prop :=
+  float_ok f /\ num_value (cleanup_exp (f_txt_e f)) = num_value (f_txt_f f).
+Hypothesis H_fa32 : forall b, float_texts_agree (jo_f32 JO b).
+Hypothesis H_fa64 : forall b, float_texts_agree (jo_f64 JO b).
+(* whole-second instants: the JSON layout prints what the decoder prints
+   (TimeFieldFormat = RFC3339, the times are in UTC); the text needs no escaping *)
+Hypothesis H_time : forall secs, o_tsi Orc secs = Some (jo_time JO (secs, 0)).
+Hypothesis H_time_plain : forall t, plain_text (jo_time JO t).
+Notation prec := (-1)%Z.
+Notation dec_prim := (Cbor2JsonP.json_prim Orc f64_of_time f64_of_dur).
+Notation dec_cval := (Cbor2JsonP.json_cval Orc f64_of_time f64_of_dur).
+Notation dec_fields := (Cbor2JsonP.json_fields Orc f64_of_time f64_of_dur).
+Notation jenc_prim := (JsonEv.json_prim JO prec f64_of_dur).
+Notation jenc_val := (JsonEv.json_val JO prec f64_of_dur).
+Notation jenc_fields := (JsonEv.json_fields JO prec f64_of_dur).
+Notation jenc_event := (JsonEv.json_event JO prec f64_of_dur).
+
+Definition stringer_jtxt (o : option (list N)) : list N := match o with None => s_null | Some s => json_string s end.
+Definition dur_jtxt (u : Z) (i : bool) (d : Z) : list N := duration_txt (mk_dval JO f64_of_dur u d) u i prec.
+
+(* the text the JSON build appends for a primitive *)
+Definition jt_prim (p : prim) : list N :=
+  match p with
+  | PString s | PBytes s => json_string s
+  | PStrings l => json_arr (map json_string l)
+  | PStringer o => stringer_jtxt o
+  | PStringers l => json_arr (map stringer_jtxt l)
+  | PHex s => hex_txt s
+  | PJSON s => s
+  | PCBOR s => cbor_txt (jo_b64 JO s)
+  | PBool b => bool_txt b
+  | PBools l => json_arr (map bool_txt l)
+  | PInt z => print_Z z
+  | PInts l => json_arr (map print_Z l)
+  | PUint n => print_N n
+  | PUints l => json_arr (map print_N l)
+  | PF32 b => float_txt true (jo_f32 JO b) prec
+  | PFs32 l => json_arr (map (fun b => float_txt true (jo_f32 JO b) prec) l)
+  | PF64 b => float_txt false (jo_f64 JO b) prec
+  | PFs64 l => json_arr (map (fun b => float_txt false (jo_f64 JO b) prec) l)
+  | PTime t => quoted (jo_time JO t)
+  | PTimes l => json_arr (map (fun t => quoted (jo_time JO t)) l)
+  | PDur u i d => dur_jtxt u i d
+  | PDurs u i l => json_arr (map (dur_jtxt u i) l)
+  | PIface (inl j) => j
+  | PIface (Datatypes.inr e) => json_string (lit_marshaling_error ++ e)
+  | PType None => json_string s_nil_type
+  | PType (Some s) => json_string s
+  | PIP ip => json_string (jo_ip JO ip)
+  | PMAC ha => json_string (jo_mac JO ha)
+  | PPrefix ip mask => json_string (jo_prefix JO ip mask)
+  | PNil => JsonSpec.lit_null
+  end.
+
+Lemma jenc_prim_shape dst p : jenc_prim dst p = dst ++ jt_prim p.
+Proof.
+  destruct p; cbn [JsonEv.json_prim jt_prim]; try reflexivity;
+  try match goal with
+  | |- AppendStrings _ _ = _ =>
+      unfold AppendStrings; rewrite (append_slice_shape AppendString json_string) by reflexivity; rewrite slice_json_arr; reflexivity
+  | |- AppendStringer _ ?o _ = _ => rewrite AppendStringer_shape; destruct o; reflexivity
+  | |- AppendStringers _ _ _ = _ =>
+      unfold AppendStringers; rewrite (append_slice_shape _ (fun v => stringer_txt v null_iface)) by (intros; apply AppendStringer_shape);
+      rewrite slice_json_arr; first [reflexivity | (f_equal; f_equal; apply map_ext; intros [s|]; reflexivity)]
+  | |- AppendHex _ _ = _ => apply AppendHex_shape
+  | |- appendCBOR _ _ = _ => apply appendCBOR_shape
+  | |- AppendBools _ _ = _ => unfold AppendBools; rewrite (append_slice_shape AppendBool bool_txt) by reflexivity; rewrite slice_json_arr; reflexivity
+  | |- AppendInts _ _ = _ => unfold AppendInts; rewrite (append_slice_shape AppendInt print_Z) by reflexivity; rewrite slice_json_arr; reflexivity
+  | |- AppendUints _ _ = _ => unfold AppendUints; rewrite (append_slice_shape AppendUint print_N) by reflexivity; rewrite slice_json_arr; reflexivity
+  | |- AppendFloat32 _ _ _ = _ => apply appendFloat_shape
+  | |- AppendFloat64 _ _ _ = _ => apply appendFloat_shape
+  | |- AppendFloats32 _ _ _ = _ =>
+      unfold AppendFloats32; rewrite (append_slice_shape _ (fun f => float_txt true f prec)) by (intros; apply appendFloat_shape);
+      rewrite slice_json_arr, map_map; reflexivity
+  | |- AppendFloats64 _ _ _ = _ =>
+      unfold AppendFloats64; rewrite (append_slice_shape _ (fun f => float_txt false f prec)) by (intros; apply appendFloat_shape);
+      rewrite slice_json_arr, map_map; reflexivity
+  | |- AppendTime _ _ _ = _ => apply AppendTime_shape
+  | |- AppendTimes _ _ _ = _ =>
+      unfold AppendTimes; rewrite (append_slice_shape _ (fun t => time_txt t TFLayout)) by (intros; apply AppendTime_shape);
+      rewrite slice_json_arr, map_map; reflexivity
+  | |- AppendDuration _ _ _ _ _ = _ => apply AppendDuration_shape
+  | |- AppendDurations _ _ ?u ?i _ = _ =>
+      unfold AppendDurations; rewrite (append_slice_shape _ (fun x => duration_txt x u i prec)) by (intros; apply AppendDuration_shape);
+      rewrite slice_json_arr, map_map; reflexivity
+  end.
+  - destruct m; reflexivity.
+  - destruct t; reflexivity.
+Qed.
+
+(* ---- equivalence of the two texts, primitive by primitive ---- *)
+Definition json_ok (s : list N) : Prop := exists v, Json s v.
+
+(* what C08 quantifies over, beyond well-formedness and size *)
+Definition prim_c08 (p : prim) : Prop :=
+  match p with
+  | PTime t => snd t = 0                                   (* whole-second instants; see C08_time_partial *)
+  | PTimes l => Forall (fun t : Z * N => snd t = 0) l
+  | PJSON s => json_ok s                                   (* the embedded text is JSON *)
+  | PIface (inl j) => json_ok j
+  (* package net: 4/16-byte IPs, 6-byte MACs, canonical prefixes: the JSON side's library text is the
+     text of the decoder's model of the same function and needs no escaping *)
+  | PIP ip => (length ip = 4 \/ length ip = 16)%nat /\ jo_ip JO ip = ip_string ip /\ Forall (fun b => no_escape b = true) (jo_ip JO ip)
+  | PMAC ha => length ha = 6%nat /\ jo_mac JO ha = mac_string ha /\ Forall (fun b => no_escape b = true) (jo_mac JO ha)
+  | PPrefix ip mask =>
+      jo_prefix JO ip mask = ipnet_string ip (mask_size_ones mask mod 256) /\
+      Forall (fun b => no_escape b = true) (jo_prefix JO ip mask)
+  (* encoding/base64 *)
+  | PCBOR s => jo_b64 JO s = b64enc (length s) s /\ Forall JsonEncP.b64char (jo_b64 JO s)
+  | PDur u true d => int64_ok (Z.quot d u)                 (* not MinInt64 / -1 *)
+  | PDurs u true l => Forall (fun d => int64_ok (Z.quot d u)) l
+  | _ => True
+  end.
+
+Lemma eq3_string s : Eq3 (appendQuotedJSON s) (json_string s).
+Proof. rewrite quoted_json_string. apply (Eq3_same _ (JStr (go_runes s))). apply string_good. Qed.
+
+Lemma eq3_stringer o : Eq3 (stringer_json o) (stringer_jtxt o).
+Proof.
+  destruct o as [s|]; cbn [stringer_json stringer_jtxt]; [apply eq3_string|].
+  apply (Eq3_same _ JNull). apply Json_null.
+Qed.
+
+Lemma eq3_slice {A} (g1 g2 : A -> list N) l : (forall x, In x l -> Eq3 (g1 x) (g2 x)) ->
+  Eq3 (json_arr (map g1 l)) (json_arr (map g2 l)).
+Proof.
+  intros H. pose proof (Eq3_arr (map (fun x => (g1 x, g2 x)) l)) as E. rewrite !map_map in E. cbn [fst snd] in E.
+  apply E. apply Forall_forall. intros p Hp. apply in_map_iff in Hp as (x & <- & Hx). cbn [fst snd]. auto.
+Qed.
+
+Lemma eq3_slice_opt {A} (jf : A -> option (list N)) (g2 : A -> list N) l :
+  (forall x, In x l -> exists t, jf x = Some t /\ Eq3 t (g2 x)) ->
+  exists js, all_some (map jf l) = Some js /\ Eq3 (json_arr js) (json_arr (map g2 l)).
+Proof.
+  intros H.
+  assert (G : exists js, all_some (map jf l) = Some js /\ Forall (fun p => Eq3 (fst p) (snd p)) (combine js (map g2 l)) /\ length js = length l).
+  { induction l as [|x l IH].
+    - exists []. repeat split; constructor.
+    - destruct (H x (or_introl eq_refl)) as (t & Et & E3).
+      destruct IH as (js & Ea & F & L); [intros y Hy; apply H; right; auto|].
+      exists (t :: js). cbn [map all_some]. rewrite Et, Ea. split; [reflexivity|]. split; [constructor; auto|cbn; lia]. }
+  destruct G as (js & Ea & F & L). exists js. split; auto.
+  pose proof (Eq3_arr _ F) as E.
+  assert (L2 : length js = length (map g2 l)) by (rewrite map_length; auto).
+  assert (M1 : map fst (combine js (map g2 l)) = js).
+  { clear -L2. revert L2. generalize (map g2 l). induction js as [|a js IH]; intros [|b m] L; cbn in *; try lia; auto. f_equal. apply IH. lia. }
+  assert (M2 : map snd (combine js (map g2 l)) = map g2 l).
+  { clear -L2. revert L2. generalize (map g2 l). induction js as [|a js IH]; intros [|b m] L; cbn in *; try lia; auto. f_equal. apply IH. lia. }
+  rewrite M1, M2 in E. exact E.
+Qed.
+
+Lemma Json_number t : is_json_number t = true -> Json t (JNum t).
+Proof. intros H. apply Json_num. apply is_json_number_sound. auto. Qed.
+
+Lemma eq3_float (w32 : bool) (f : fval) (t : list N) :
+  float_texts_agree f ->
+  (if f_isnan w32 (f_bits f) then Some lit_NaN else if f_ispinf w32 (f_bits f) then Some lit_pInf
+   else if f_isninf w32 (f_bits f) then Some lit_nInf else Some (f_txt_f f)) = Some t ->
+  Eq3 t (float_txt w32 f prec).
+Proof.
+  intros [[Hf He] Hn] Ht. pose proof (float_good_txt w32 f prec (conj Hf He)) as [J _].
+  unfold float_jv in *. unfold float_txt in *.
+  destruct (f_isnan w32 (f_bits f)); [inversion Ht; subst; eapply Eq3_same; exact J|].
+  destruct (f_ispinf w32 (f_bits f)); [inversion Ht; subst; eapply Eq3_same; exact J|].
+  destruct (f_isninf w32 (f_bits f)); [inversion Ht; subst; eapply Eq3_same; exact J|].
+  inversion Ht; subst t. destruct (f_use_e w32 (f_bits f) prec).
+  - exists (JNum (f_txt_f f)), (JNum (cleanup_exp (f_txt_e f))). split; [apply Json_number; auto|]. split; [exact J|].
+    constructor. symmetry. exact Hn.
+  - eapply Eq3_same. exact J.
+Qed.
+
+Lemma eq3_f32 b : exists t, f32_json Orc b = Some t /\ Eq3 t (float_txt true (jo_f32 JO b) prec).
+Proof.
+  assert (E : f32_json Orc b =
+     (if f_isnan true (f_bits (jo_f32 JO b)) then Some lit_NaN else if f_ispinf true (f_bits (jo_f32 JO b)) then Some lit_pInf
+      else if f_isninf true (f_bits (jo_f32 JO b)) then Some lit_nInf else Some (f_txt_f (jo_f32 JO b)))).
+  { rewrite H_bits32. unfold f32_json. rewrite H_f32. reflexivity. }
+  destruct (f32_json Orc b) as [t|] eqn:Et.
+  - exists t. split; auto. apply (eq3_float true (jo_f32 JO b) t (H_fa32 b)). auto.
+  - exfalso. repeat (destruct (_ : bool) in E; try discriminate).
+Qed.
+
+Lemma eq3_f64 b : exists t, f64_json Orc b = Some t /\ Eq3 t (float_txt false (jo_f64 JO b) prec).
+Proof.
+  assert (E : f64_json Orc b =
+     (if f_isnan false (f_bits (jo_f64 JO b)) then Some lit_NaN else if f_ispinf false (f_bits (jo_f64 JO b)) then Some lit_pInf
+      else if f_isninf false (f_bits (jo_f64 JO b)) then Some lit_nInf else Some (f_txt_f (jo_f64 JO b)))).
+  { rewrite H_bits64. unfold f64_json. rewrite H_f64. reflexivity. }
+  destruct (f64_json Orc b) as [t|] eqn:Et.
+  - exists t. split; auto. apply (eq3_float false (jo_f64 JO b) t (H_fa64 b)). auto.
+  - exfalso. repeat (destruct (_ : bool) in E; try discriminate).
+Qed.
+
+Lemma Json_quoted_plain t : plain_text t -> Json (quoted t) (JStr (go_runes t)).
+Proof. intros H. apply Json_str. apply plain_quoted_good. auto. Qed.
+
+Lemma eq3_time secs : exists t, time_json Orc f64_of_time (secs, 0) = Some t /\ Eq3 t (quoted (jo_time JO (secs, 0))).
+Proof.
+  unfold time_json. cbn. rewrite H_time. cbn [option_map]. eexists. split; [reflexivity|].
+  apply (Eq3_same _ (JStr (go_runes (jo_time JO (secs, 0))))). apply Json_quoted_plain. apply H_time_plain.
+Qed.
+
+Lemma eq3_dur u i d : (i = true -> int64_ok (Z.quot d u)) ->
+  exists t, dur_json Orc f64_of_dur u i d = Some t /\ Eq3 t (dur_jtxt u i d).
+Proof.
+  intros Hi. unfold dur_json, dur_jtxt, duration_txt. destruct i.
+  - rewrite wrap64_id by (apply Hi; reflexivity). eexists. split; [reflexivity|].
+    cbn [mk_dval d_ns]. apply (Eq3_same _ (JNum (print_Z (Z.quot d u)))). apply print_Z_Json.
+  - cbn [mk_dval d_quot]. apply eq3_f64.
+Qed.
+
+Lemma json_string_quoted s : Forall (fun b => no_escape b = true) s -> json_string s = CborDec.quote s.
+Proof. intros H. rewrite json_string_plain by auto. reflexivity. Qed.
+
+Theorem prim_eq3 p : wf_prim p -> small_prim p -> prim_c08 p -> exists t1, dec_prim p = Some t1 /\ Eq3 t1 (jt_prim p).
+Proof.
+  destruct p; cbn [wf_prim small_prim prim_c08 Cbor2JsonP.json_prim jt_prim]; intros W Sm C8.
+  - eexists; split; [reflexivity|apply eq3_string].
+  - eexists; split; [reflexivity|]. apply eq3_slice. intros; apply eq3_string.
+  - eexists; split; [reflexivity|apply eq3_stringer].
+  - eexists; split; [reflexivity|]. apply eq3_slice. intros; apply eq3_stringer.
+  - eexists; split; [reflexivity|apply eq3_string].
+  - eexists; split; [reflexivity|]. rewrite hex_txt_agree. destruct W as [Wb _].
+    destruct (hex_good [] s Wb) as (_ & [J _] & _). eapply Eq3_same; exact J.
+  - eexists; split; [reflexivity|]. destruct C8 as [v J]. eapply Eq3_same; exact J.
+  - eexists; split; [reflexivity|]. destruct C8 as [E B]. rewrite data_url_agree, <- E.
+    destruct (rawcbor_good [] _ B) as (_ & J & _). eapply Eq3_same; exact J.
+  - eexists; split; [reflexivity|]. destruct b; [apply (Eq3_same _ (JBool true)); apply Json_true|apply (Eq3_same _ (JBool false)); apply Json_false].
+  - eexists; split; [reflexivity|]. apply (eq3_slice (fun b : bool => if b then CborDec.lit_true else CborDec.lit_false) bool_txt).
+    intros [|] _; [apply (Eq3_same _ (JBool true)); apply Json_true|apply (Eq3_same _ (JBool false)); apply Json_false].
+  - eexists; split; [reflexivity|]. eapply Eq3_same. apply print_Z_Json.
+  - eexists; split; [reflexivity|]. apply eq3_slice. intros; eapply Eq3_same; apply print_Z_Json.
+  - eexists; split; [reflexivity|]. eapply Eq3_same. apply print_N_Json.
+  - eexists; split; [reflexivity|]. apply eq3_slice. intros; eapply Eq3_same; apply print_N_Json.
+  - apply eq3_f32.
+  - destruct (eq3_slice_opt (f32_json Orc) (fun b => float_txt true (jo_f32 JO b) prec) l) as (js & Ea & E); [intros; apply eq3_f32|].
+    rewrite Ea. eexists; split; [reflexivity|exact E].
+  - apply eq3_f64.
+  - destruct (eq3_slice_opt (f64_json Orc) (fun b => float_txt false (jo_f64 JO b) prec) l) as (js & Ea & E); [intros; apply eq3_f64|].
+    rewrite Ea. eexists; split; [reflexivity|exact E].
+  - destruct t as [secs nanos]. cbn [snd] in C8. subst nanos. apply eq3_time.
+  - destruct (eq3_slice_opt (time_json Orc f64_of_time) (fun t => quoted (jo_time JO t)) l) as (js & Ea & E).
+    { intros [secs nanos] Hin. rewrite Forall_forall in C8. specialize (C8 _ Hin). cbn [snd] in C8. subst nanos. apply eq3_time. }
+    rewrite Ea. eexists; split; [reflexivity|exact E].
+  - apply eq3_dur. intros ->. exact C8.
+  - destruct (eq3_slice_opt (dur_json Orc f64_of_dur unit useInt) (dur_jtxt unit useInt) l) as (js & Ea & E).
+    { intros d Hin. apply eq3_dur. intros ->. rewrite Forall_forall in C8. apply C8; auto. }
+    rewrite Ea. eexists; split; [reflexivity|exact E].
+  - destruct m as [j|e]; (eexists; split; [reflexivity|]).
+    + destruct C8 as [v J]. eapply Eq3_same; exact J.
+    + apply eq3_string.
+  - destruct t as [s|]; (eexists; split; [reflexivity|]); apply eq3_string.
+  - destruct C8 as (C8 & E & P).
+    assert (Hl : ((length ip =? 4) || (length ip =? 16))%nat = true) by (destruct C8 as [-> | ->]; reflexivity).
+    rewrite Hl. eexists; split; [reflexivity|].
+    rewrite <- E, <- (json_string_quoted _ P). eapply Eq3_same. apply string_good.
+  - destruct C8 as (C8 & E & P). rewrite C8. cbn. eexists; split; [reflexivity|].
+    rewrite <- E, <- (json_string_quoted _ P). eapply Eq3_same. apply string_good.
+  - destruct C8 as [C8 P]. eexists; split; [reflexivity|]. rewrite <- C8, <- (json_string_quoted _ P). eapply Eq3_same. apply string_good.
+  - eexists; split; [reflexivity|]. apply (Eq3_same _ JNull). apply Json_null.
+Qed.
+
+(* ---- nesting ---- *)
+Fixpoint jt_cval (v : cval) : list N :=
+  match v with
+  | VP p => jt_prim p
+  | VArr l => json_arr (map jt_cval l)
+  | VDict kvs => json_obj (map (fun kv => (json_string (fst kv), jt_cval (snd kv))) kvs)
+  end.
+Definition jt_members (kvs : list (list N * cval)) : list (list N * list N) :=
+  map (fun kv => (json_string (fst kv), jt_cval (snd kv))) kvs.
+
+Fixpoint cval_c08 (v : cval) : Prop :=
+  match v with
+  | VP p => prim_c08 p
+  | VArr l => (fix all (l : list cval) : Prop := match l with [] => True | x :: t => cval_c08 x /\ all t end) l
+  | VDict kvs =>
+      (fix all (l : list (list N * cval)) : Prop := match l with [] => True | (k, x) :: t => cval_c08 x /\ all t end) kvs
+  end.
+Definition fields_c08 (kvs : list (list N * cval)) : Prop := Forall (fun kv => cval_c08 (snd kv)) kvs.
+
+Definition val_shape (x : cval) : Prop := (forall d, jenc_val d x = d ++ jt_cval x) /\ good_txt (jt_cval x).
+
+Lemma arr_fold l : Forall val_shape l -> forall ts, Forall (fun t => t <> []) ts ->
+  (fix go (l : list cval) (buf : bytes) : bytes :=
+     match l with [] => buf | x :: t => go t (jenc_val (AppendArrayDelim buf) x) end) l (join_comma ts)
+  = join_comma (ts ++ map jt_cval l).
+Proof.
+  induction 1 as [|x l [Sx [Gx _]] _ IH]; intros ts Fts; cbn [map]; [rewrite app_nil_r; reflexivity|].
+  rewrite Sx.
+  assert (E : AppendArrayDelim (join_comma ts) ++ jt_cval x = join_comma (ts ++ [jt_cval x])).
+  { destruct ts as [|a ts'].
+    - reflexivity.
+    - pose proof (join_comma_nonempty (a :: ts') ltac:(discriminate) Fts) as Hn.
+      unfold AppendArrayDelim. destruct (join_comma (a :: ts')) eqn:Ej; [congruence|]. rewrite <- Ej.
+      rewrite join_comma_snoc by discriminate. rewrite <- app_assoc. reflexivity. }
+  rewrite E. rewrite IH by (apply Forall_app; split; auto).
+  rewrite <- app_assoc. reflexivity.
+Qed.
+
+Lemma fields_fold_j kvs : Forall (fun kv => val_shape (snd kv)) kvs -> forall b0 ps, Forall (fun p => good_txt (snd p)) ps ->
+  fold_left (fun b kv => jenc_val (AppendKey b (fst kv)) (snd kv)) kvs (b0 ++ [0x7B] ++ join_pairs ps)
+  = b0 ++ [0x7B] ++ join_pairs (ps ++ jt_members kvs).
+Proof.
+  induction 1 as [|[k x] kvs [Sx Gx] _ IH]; intros b0 ps Fps; cbn [fold_left jt_members map fst snd]; [rewrite app_nil_r; reflexivity|].
+  cbn [fst snd] in *. rewrite Sx, AppendKey_shape.
+  assert (E : ((b0 ++ [0x7B] ++ join_pairs ps) ++
+               (if last_byte (b0 ++ [0x7B] ++ join_pairs ps) =? 0x7B then [] else [0x2C]) ++ json_string k ++ [0x3A]) ++ jt_cval x
+              = b0 ++ [0x7B] ++ join_pairs (ps ++ [(json_string k, jt_cval x)])).
+  { destruct ps as [|p ps'].
+    - cbn [join_pairs app]. rewrite ?app_nil_r. rewrite last_byte_snoc. cbn [N.eqb Pos.eqb app]. rewrite <- !app_assoc. reflexivity.
+    - destruct (join_pairs_good (p :: ps') ltac:(discriminate) Fps) as [Hn Hl].
+      assert (L : last_byte (b0 ++ [0x7B] ++ join_pairs (p :: ps')) = last_byte (join_pairs (p :: ps'))) by (rewrite app_assoc; apply last_byte_app; auto).
+      rewrite L. replace (last_byte (join_pairs (p :: ps')) =? 0x7B) with false by lia.
+      rewrite join_pairs_snoc by discriminate. rewrite <- !app_assoc. reflexivity. }
+  rewrite E. rewrite IH by (apply Forall_app; split; auto; constructor; auto).
+  rewrite <- app_assoc. reflexivity.
+Qed.
+
+Lemma dict_fix_fold kvs : forall buf,
+  (fix go (l : list (list N * cval)) (buf : bytes) : bytes :=
+     match l with [] => buf | (k, x) :: t => go t (jenc_val (AppendKey buf k) x) end) kvs buf
+  = fold_left (fun b kv => jenc_val (AppendKey b (fst kv)) (snd kv)) kvs buf.
+Proof. induction kvs as [|[k x] t IH]; intros buf; cbn [fold_left fst snd]; auto. Qed.
+
+(* fields of a dict / an event: decoder text and JSON-build text *)
+Lemma members_eq3 kvs :
+  Forall (fun kv => forall t1, dec_cval (snd kv) = Some t1 -> Eq3 t1 (jt_cval (snd kv))) kvs ->
+  forall ps, all_some (map (fun kv => option_map (fun j => (appendQuotedJSON (fst kv), j)) (dec_cval (snd kv))) kvs) = Some ps ->
+  Eq3 (json_obj ps) (json_obj (jt_members kvs)).
+Proof.
+  intros F ps Ha.
+  assert (G : exists qs : list (list N * (list N * list N)),
+     ps = map (fun q => (json_string (fst q), fst (snd q))) qs /\
+     jt_members kvs = map (fun q => (json_string (fst q), snd (snd q))) qs /\
+     Forall (fun q => Eq3 (fst (snd q)) (snd (snd q))) qs).
+  { revert ps Ha. induction F as [|[k x] kvs Hx _ IH]; intros ps Ha; cbn [map all_some] in Ha.
+    - inversion Ha; subst. exists []. repeat split; constructor.
+    - cbn [fst snd] in *. destruct (dec_cval x) as [t1|] eqn:Ex; [|discriminate]. cbn [option_map] in Ha.
+      destruct (all_some _) as [ps'|] eqn:Ea; [|discriminate]. inversion Ha; subst.
+      destruct (IH ps' eq_refl) as (qs & E1 & E2 & FQ).
+      exists ((k, (t1, jt_cval x)) :: qs). cbn [map fst snd jt_members]. rewrite quoted_json_string.
+      split; [f_equal; auto|]. split; [f_equal; auto|]. constructor; auto. }
+  destruct G as (qs & -> & -> & FQ). apply Eq3_obj. auto.
+Qed.
+
+Theorem cval_eq3 : forall v, wf_cval v -> small_cval v -> cval_c08 v ->
+  val_shape v /\ exists t1, dec_cval v = Some t1 /\ Eq3 t1 (jt_cval v).
+Proof.
+  induction v as [p|l IHl|kvs IHl] using cval_ind'; intros W Sm C8.
+  - destruct (prim_eq3 p W Sm C8) as (t1 & E1 & E3). split; [|exists t1; auto].
+    split; [intros d; apply jenc_prim_shape|]. destruct E3 as (v1 & v2 & _ & J2 & _). eapply Json_good; eauto.
+  - (* arrays *)
+    assert (G : Forall val_shape l /\ exists js, all_some (map dec_cval l) = Some js /\ Eq3 (json_arr js) (json_arr (map jt_cval l))).
+    { assert (Hall : Forall (fun x => val_shape x /\ exists t1, dec_cval x = Some t1 /\ Eq3 t1 (jt_cval x)) l).
+      { clear -IHl W Sm C8. induction l as [|x t IH]; [constructor|]. inversion IHl as [|? ? Px Pt]; subst.
+        cbn in W, Sm, C8. destruct W as [Wx Wt]. destruct Sm as [Sx St]. destruct C8 as [Cx Ct]. constructor; auto. }
+      split; [eapply Forall_impl; [|exact Hall]; intros x [H _]; exact H|].
+      apply eq3_slice_opt. intros x Hx. rewrite Forall_forall in Hall. apply (Hall x Hx). }
+    destruct G as (Fs & js & Ea & E3). split.
+    + split.
+      * intros d. cbn [JsonEv.json_val jt_cval]. pose proof (arr_fold l Fs [] ltac:(constructor)) as AF. cbn [join_comma app] in AF.
+        rewrite AF. unfold AppendArrayEnd, AppendArrayStart, json_arr. rewrite <- ?app_assoc. reflexivity.
+      * destruct E3 as (v1 & v2 & _ & J2 & _). eapply Json_good; eauto.
+    + cbn [Cbor2JsonP.json_cval jt_cval]. rewrite Ea. eexists; split; [reflexivity|exact E3].
+  - (* dicts *)
+    assert (Hall : Forall (fun kv => val_shape (snd kv) /\ exists t1, dec_cval (snd kv) = Some t1 /\ Eq3 t1 (jt_cval (snd kv))) kvs).
+    { clear -IHl W Sm C8. induction kvs as [|[k x] t IH]; [constructor|]. inversion IHl as [|? ? Px Pt]; subst.
+      cbn in W, Sm, C8. destruct W as (Wk & Wx & Wt). destruct Sm as (Sk & Sx & St). destruct C8 as [Cx Ct]. constructor; auto. }
+    assert (Fs : Forall (fun kv => val_shape (snd kv)) kvs) by (eapply Forall_impl; [|exact Hall]; intros kv [H _]; exact H).
+    assert (Fe : Forall (fun kv => forall t1, dec_cval (snd kv) = Some t1 -> Eq3 t1 (jt_cval (snd kv))) kvs).
+    { eapply Forall_impl; [|exact Hall]. intros kv [_ (t & Et & E3)] t1 E1. congruence. }
+    assert (Ha : exists ps, all_some (map (fun kv => option_map (fun j => (appendQuotedJSON (fst kv), j)) (dec_cval (snd kv))) kvs) = Some ps).
+    { clear -Hall. induction Hall as [|[k x] t [_ (t1 & E1 & _)] _ (ps & IH)]; [exists []; reflexivity|].
+      cbn [map all_some fst snd] in *. rewrite E1. cbn [option_map]. rewrite IH. eexists; reflexivity. }
+    destruct Ha as (ps & Ha). pose proof (members_eq3 kvs Fe ps Ha) as E3.
+    split.
+    + split.
+      * intros d. cbn [JsonEv.json_val jt_cval]. rewrite dict_fix_fold.
+        pose proof (fields_fold_j kvs Fs [] [] ltac:(constructor)) as FF. cbn [join_pairs app] in FF.
+        unfold AppendBeginMarker. cbn [app]. rewrite FF. unfold AppendEndMarker, json_obj, jt_members. rewrite <- ?app_assoc. reflexivity.
+      * destruct E3 as (v1 & v2 & _ & J2 & _). eapply Json_good; eauto.
+    + cbn [Cbor2JsonP.json_cval jt_cval]. rewrite Ha. eexists; split; [reflexivity|exact E3].
+Qed.
+
+(* ---- whole events ---- *)
+Lemma shapes_of kvs : wf_fields kvs -> small_fields kvs -> fields_c08 kvs ->
+  Forall (fun kv => val_shape (snd kv)) kvs /\
+  Forall (fun kv => forall t1, dec_cval (snd kv) = Some t1 -> Eq3 t1 (jt_cval (snd kv))) kvs /\
+  exists ps, all_some (map (fun kv => option_map (fun j => (appendQuotedJSON (fst kv), j)) (dec_cval (snd kv))) kvs) = Some ps.
+Proof.
+  intros W Sm C8.
+  assert (Hall : Forall (fun kv => val_shape (snd kv) /\ exists t1, dec_cval (snd kv) = Some t1 /\ Eq3 t1 (jt_cval (snd kv))) kvs).
+  { unfold wf_fields, small_fields, fields_c08 in *. rewrite Forall_forall in *. intros kv Hin.
+    destruct (W kv Hin) as [_ Wv]. destruct (Sm kv Hin) as [_ Sv]. apply cval_eq3; auto. }
+  split; [eapply Forall_impl; [|exact Hall]; intros kv [H _]; exact H|]. split.
+  - eapply Forall_impl; [|exact Hall]. intros kv [_ (t & Et & E3)] t1 E1. congruence.
+  - clear -Hall. induction Hall as [|[k x] t [_ (t1 & E1 & _)] _ (ps & IH)]; [exists []; reflexivity|].
+    cbn [map all_some fst snd] in *. rewrite E1. cbn [option_map]. rewrite IH. eexists; reflexivity.
+Qed.
+
+Lemma jenc_event_shape kvs : Forall (fun kv => val_shape (snd kv)) kvs ->
+  jenc_event kvs = json_obj (jt_members kvs) ++ [10].
+Proof.
+  intros Fs. unfold JsonEv.json_event, JsonEv.json_fields.
+  pose proof (fields_fold_j kvs Fs [] [] ltac:(constructor)) as FF. cbn [join_pairs app] in FF.
+  unfold AppendBeginMarker. cbn [app]. rewrite FF. unfold AppendLineBreak, AppendEndMarker, json_obj. rewrite <- ?app_assoc. reflexivity.
+Qed.
+
+Theorem decode_equiv kvs : wf_fields kvs -> small_fields kvs -> fields_c08 kvs ->
+  exists t1 v1 t2 v2,
+    decodes Orc (enc_event f64_of_time f64_of_dur kvs) t1 /\ Json t1 v1 /\
+    jenc_event kvs = t2 ++ [10] /\ Json t2 v2 /\ jv_equiv v1 v2.
+Proof.
+  intros W Sm C8. destruct (shapes_of kvs W Sm C8) as (Fs & Fe & ps & Ha).
+  destruct (members_eq3 kvs Fe ps Ha) as (v1 & v2 & J1 & J2 & E).
+  exists (json_obj ps), v1, (json_obj (jt_members kvs)), v2.
+  split; [|split; [exact J1|split; [apply jenc_event_shape; auto|split; [exact J2|exact E]]]].
+  apply (event_decodes Orc f64_of_time f64_of_dur f64_of_time_range f64_of_dur_range); auto.
+  unfold Cbor2JsonP.json_fields. rewrite Ha. reflexivity.
+Qed.
+
+(* the same through the stream decoder: one line, no error *)
+Corollary decode_equiv_line kvs : wf_fields kvs -> small_fields kvs -> fields_c08 kvs ->
+  fits_memory (enc_event f64_of_time f64_of_dur kvs) ->
+  exists t1 v1 t2 v2 a,
+    cbor2json Orc (enc_event f64_of_time f64_of_dur kvs) = (t1 ++ [10], FOk, a) /\ Json t1 v1 /\
+    jenc_event kvs = t2 ++ [10] /\ Json t2 v2 /\ jv_equiv v1 v2.
+Proof.
+  intros W Sm C8 Hm. destruct (decode_equiv kvs W Sm C8) as (t1 & v1 & t2 & v2 & D & J1 & E2 & J2 & E).
+  destruct (stream_decodes Orc [enc_event f64_of_time f64_of_dur kvs] [t1]) as (a & R).
+  { constructor; [exact D|constructor]. } { cbn [concat]. rewrite app_nil_r. exact Hm. }
+  cbn [concat] in R. rewrite app_nil_r in R. unfold lines in R. cbn [map concat] in R. rewrite app_nil_r in R.
+  exists t1, v1, t2, v2, a. auto.
+Qed.
+
+(* ---- the context splice of the JSON build (log.go newEvent): the line of
+   (pre, ctx, ev) is the line of the concatenated field list ---- *)
+Lemma join_pairs_app ps qs : ps <> [] -> qs <> [] -> join_pairs (ps ++ qs) = join_pairs ps ++ [44] ++ join_pairs qs.
+Proof.
+  intros Hp. revert ps Hp. induction qs as [|[k t] qs IH] using rev_ind; intros ps Hp Hq; [congruence|].
+  destruct qs as [|q qs'].
+  - cbn [app]. rewrite join_pairs_snoc by auto. reflexivity.
+  - rewrite app_assoc. rewrite join_pairs_snoc by (destruct ps; [congruence|discriminate]).
+    rewrite IH by (auto; discriminate). rewrite (join_pairs_snoc (q :: qs')) by discriminate. rewrite <- !app_assoc. reflexivity.
+Qed.
+
+Lemma members_good kvs : Forall (fun kv => val_shape (snd kv)) kvs -> Forall (fun p : list N * list N => good_txt (snd p)) (jt_members kvs).
+Proof. intros F. unfold jt_members. apply Forall_forall. intros p Hp. apply in_map_iff in Hp as (kv & <- & Hin). rewrite Forall_forall in F. apply (F kv Hin). Qed.
+
+Theorem json_context_splice pre ctx ev :
+  Forall (fun kv => val_shape (snd kv)) pre -> Forall (fun kv => val_shape (snd kv)) ctx -> Forall (fun kv => val_shape (snd kv)) ev ->
+  JsonEv.json_event_ctx JO prec f64_of_dur pre ctx ev = jenc_event (pre ++ ctx ++ ev).
+Proof.
+  intros Fp Fc Fe.
+  assert (Fall : Forall (fun kv => val_shape (snd kv)) (pre ++ ctx ++ ev)) by (repeat (apply Forall_app; split); auto).
+  rewrite (jenc_event_shape _ Fall). unfold JsonEv.json_event_ctx, JsonEv.json_context, JsonEv.json_fields.
+  pose proof (fields_fold_j pre Fp [] [] ltac:(constructor)) as Ep. cbn [join_pairs app] in Ep.
+  pose proof (fields_fold_j ctx Fc [] [] ltac:(constructor)) as Ec. cbn [join_pairs app] in Ec.
+  unfold AppendBeginMarker. cbn [app]. rewrite Ep, Ec.
+  set (mp := jt_members pre). set (mc := jt_members ctx).
+  assert (Gp : Forall (fun p : list N * list N => good_txt (snd p)) mp) by (apply members_good; auto).
+  assert (Gc : Forall (fun p : list N * list N => good_txt (snd p)) mc) by (apply members_good; auto).
+  assert (Hbuf : (if 1 <? N.of_nat (length (123 :: join_pairs mc)) then AppendObjectData (123 :: join_pairs mp) (123 :: join_pairs mc) else 123 :: join_pairs mp)
+                 = [] ++ [123] ++ join_pairs (mp ++ mc)).
+  { destruct mc as [|c mc'] eqn:Emc.
+    - cbn [join_pairs length]. rewrite app_nil_r. reflexivity.
+    - destruct (join_pairs_good (c :: mc') ltac:(discriminate) Gc) as [Hn _].
+      assert (L1 : (1 <? N.of_nat (length (123 :: join_pairs (c :: mc')))) = true).
+      { destruct (join_pairs (c :: mc')); [congruence|]. cbn [length]. lia. }
+      rewrite L1. unfold AppendObjectData. destruct mp as [|a mp'] eqn:Emp.
+      + cbn [join_pairs length app]. reflexivity.
+      + destruct (join_pairs_good (a :: mp') ltac:(discriminate) Gp) as [Hn2 _].
+        assert (L2 : (1 <? N.of_nat (length (123 :: join_pairs (a :: mp')))) = true).
+        { destruct (join_pairs (a :: mp')); [congruence|]. cbn [length]. lia. }
+        rewrite L2. rewrite join_pairs_app by discriminate. cbn [app]. rewrite <- !app_assoc. reflexivity. }
+  rewrite Hbuf.
+  pose proof (fields_fold_j ev Fe [] (mp ++ mc) ltac:(apply Forall_app; split; auto)) as Ee.
+  rewrite Ee. unfold AppendLineBreak, AppendEndMarker, json_obj, jt_members, mp, mc. rewrite !map_app. cbn [app].
+  rewrite <- ?app_assoc. reflexivity.
+Qed.
+
+(* ---- the two fixed defects as theorems ---- *)
+(* e480b62: every unsigned and signed 64-bit integer decodes to its exact decimal text
+   (the text the JSON build prints), which reads back as the number *)
+Theorem uint_exact n : (n < 2 ^ 64) ->
+  item_json Orc (cbor_AppendUint64 [] n) (print_N n) /\ AppendUint [] n = print_N n /\ parse_N (print_N n) = Some n.
+Proof. intros H. split; [apply json_uint; auto|]. split; [reflexivity|apply parse_print_N]. Qed.
+
+Theorem int_exact z : int64_ok z ->
+  item_json Orc (cbor_AppendInt64 [] z) (print_Z z) /\ AppendInt [] z = print_Z z /\ parse_Z (print_Z z) = Some z.
+Proof. intros H. split; [apply json_int; auto|]. split; [reflexivity|apply parse_print_Z]. Qed.
+
+(* cb46159: Bytes decode with the escaping of text strings: the JSON build's
+   string text, a JSON string that denotes Go's reading of the bytes *)
+Theorem bytes_escaped s : wf_str s -> (len s < 2 ^ 63) ->
+  item_json Orc (cbor_AppendBytes [] s) (json_string s) /\
+  item_json Orc (cbor_AppendString [] s) (json_string s) /\
+  AppendBytes [] s = json_string s /\ JString (json_string s) (go_runes s).
+Proof.
+  intros W H. rewrite <- quoted_json_string. split; [apply json_bytes; auto|]. split; [apply Cbor2JsonP.json_string; auto|].
+  split; [rewrite quoted_json_string; reflexivity|]. rewrite quoted_json_string. apply json_string_good_all.
+Qed.
+End C08.
+
+(* ------------------------------------------------------------------ *)
+(* fractional timestamps (partial)                                     *)
+(* ------------------------------------------------------------------ *)
+(* The binary format carries a fractional instant as float64 seconds (CBOR
+   tag 1), the decoder prints that float with RFC3339Nano; the JSON build
+   prints the exact instant with its layout.  What can be said needs the
+   numeric meaning of float bits and of timestamp texts, which are oracles:
+     val64 bits : the rational value of a finite float64 pattern
+     inst txt   : the instant (seconds since the epoch) a timestamp text denotes
+   Assumed: (A1) the conversion float64(secs) + float64(nanos)*1e-9 is within
+   e1 of the exact instant (|secs| < 2^33: e1 = 2^-20 s); (A2) the decoder's
+   text of a float denotes an instant within e2 of the float (it splits the
+   float into seconds and nanoseconds: e2 = 2^-20 s + 1 ns); (A3) the JSON
+   layout (RFC3339: whole seconds) denotes the instant truncated to seconds.
+   Then the decoded text denotes an instant within e1 + e2 of the logged one,
+   and the two texts agree at the precision of the JSON layout up to that
+   tolerance. *)
+Section TimePartial.
+Local Open Scope Q_scope.
+Variable Orc : oracle.
+Variable JO : joracle.
+Variable f64_of_time : Z -> N -> N.
+Variable val64 : N -> Q.
+Variable inst : list N -> option Q.
+Variables e1 e2 : Q.
+
+Definition exact_instant (secs : Z) (nanos : N) : Q := inject_Z secs + inject_Z (Z.of_N nanos) / inject_Z 1000000000.
+
+Theorem time_partial secs nanos txt q j :
+  nanos <> 0%N -> (nanos < 1000000000)%N ->
+  o_tsf Orc W64 (canon64 (f64_of_time secs nanos)) = Some txt ->
+  (* A1 *) Qabs (val64 (canon64 (f64_of_time secs nanos)) - exact_instant secs nanos) <= e1 ->
+  (* A2 *) inst txt = Some q -> Qabs (q - val64 (canon64 (f64_of_time secs nanos))) <= e2 ->
+  (* A3 *) inst (jo_time JO (secs, nanos)) = Some j -> j = inject_Z secs ->
+  time_json Orc f64_of_time (secs, nanos) = Some (CborDec.quote txt) /\
+  Qabs (q - exact_instant secs nanos) <= e1 + e2 /\
+  (j <= q + (e1 + e2) /\ q - (e1 + e2) < j + 1).
+Proof.
+  intros Hn Hlt Ho A1 Hq A2 Hj Ej.
+  split.
+  { unfold time_json. replace (nanos =? 0)%N with false by lia. rewrite Ho. reflexivity. }
+  apply Qabs_Qle_condition in A1. apply Qabs_Qle_condition in A2.
+  assert (Hx : 0 <= exact_instant secs nanos - inject_Z secs /\ exact_instant secs nanos - inject_Z secs < 1).
+  { unfold exact_instant. 
+    assert (H0 : 0 <= inject_Z (Z.of_N nanos) / inject_Z 1000000000).
+    { apply Qle_shift_div_l; [reflexivity|]. rewrite Qmult_0_l. change 0 with (inject_Z 0). rewrite <- Zle_Qle. lia. }
+    assert (H1 : inject_Z (Z.of_N nanos) / inject_Z 1000000000 < 1).
+    { apply Qlt_shift_div_r; [reflexivity|]. rewrite Qmult_1_l. rewrite <- Zlt_Qlt. lia. }
+    split; lra. }
+  split.
+  - apply Qabs_Qle_condition. lra.
+  - subst j. lra.
+Qed.
+End TimePartial.
+
+(* ------------------------------------------------------------------ *)
+(* the oracle hypotheses as one record, and the main statements        *)
+(* ------------------------------------------------------------------ *)
+Record c08_oracles (Orc : oracle) (JO : joracle) (f64_of_time : Z -> N -> N) (f64_of_dur : Z -> Z -> N) : Prop := {
+  co_time_range : forall s n, f64_of_time s n < 2 ^ 64;
+  co_dur_range : forall d u, f64_of_dur d u < 2 ^ 64;
+  co_bits32 : forall b, f_bits (jo_f32 JO b) = b;
+  co_bits64 : forall b, f_bits (jo_f64 JO b) = b;
+  co_f32 : forall b, o_f32 Orc b = Some (f_txt_f (jo_f32 JO b));
+  co_f64 : forall b, o_f64 Orc b = Some (f_txt_f (jo_f64 JO b));
+  co_fa32 : forall b, float_texts_agree (jo_f32 JO b);
+  co_fa64 : forall b, float_texts_agree (jo_f64 JO b);
+  co_time : forall secs, o_tsi Orc secs = Some (jo_time JO (secs, 0));
+  co_time_plain : forall t, plain_text (jo_time JO t) }.
+
+Theorem C08_main Orc JO ft fd : c08_oracles Orc JO ft fd ->
+  forall kvs, wf_fields kvs -> small_fields kvs -> fields_c08 JO kvs ->
+  exists t1 v1 t2 v2,
+    decodes Orc (enc_event ft fd kvs) t1 /\ Json t1 v1 /\
+    JsonEv.json_event JO (-1) fd kvs = t2 ++ [10] /\ Json t2 v2 /\ jv_equiv v1 v2.
+Proof. intros [H1 H2 H3 H4 H5 H6 H7 H8 H9 H10]. apply decode_equiv; auto. Qed.
+
+Theorem C08_main_line Orc JO ft fd : c08_oracles Orc JO ft fd ->
+  forall kvs, wf_fields kvs -> small_fields kvs -> fields_c08 JO kvs -> fits_memory (enc_event ft fd kvs) ->
+  exists t1 v1 t2 v2 a,
+    cbor2json Orc (enc_event ft fd kvs) = (t1 ++ [10], FOk, a) /\ Json t1 v1 /\
+    JsonEv.json_event JO (-1) fd kvs = t2 ++ [10] /\ Json t2 v2 /\ jv_equiv v1 v2.
+Proof. intros [H1 H2 H3 H4 H5 H6 H7 H8 H9 H10]. apply decode_equiv_line; auto. Qed.
+
+Theorem C08_prim Orc JO ft fd : c08_oracles Orc JO ft fd ->
+  forall p, wf_prim p -> small_prim p -> prim_c08 JO p ->
+  exists t1 v1 v2, Cbor2JsonP.json_prim Orc ft fd p = Some t1 /\ item_json Orc (enc_prim ft fd [] p) t1 /\
+    (forall dst, JsonEv.json_prim JO (-1) fd dst p = dst ++ jt_prim JO fd p) /\
+    Json t1 v1 /\ Json (jt_prim JO fd p) v2 /\ jv_equiv v1 v2.
+Proof.
+  intros [H1 H2 H3 H4 H5 H6 H7 H8 H9 H10] p W Sm C8.
+  destruct (prim_eq3 Orc JO ft fd H3 H4 H5 H6 H7 H8 H9 H10 p W Sm C8) as (t1 & E1 & v1 & v2 & J1 & J2 & E).
+  exists t1, v1, v2. split; auto. split; [apply (prim_decodes Orc ft fd H1 H2); auto|].
+  split; [intros; apply jenc_prim_shape|auto].
+Qed.
+
+Theorem C08_splice Orc JO ft fd : c08_oracles Orc JO ft fd ->
+  forall pre ctx ev, wf_fields (pre ++ ctx ++ ev) -> small_fields (pre ++ ctx ++ ev) -> fields_c08 JO (pre ++ ctx ++ ev) ->
+  JsonEv.json_event_ctx JO (-1) fd pre ctx ev = JsonEv.json_event JO (-1) fd (pre ++ ctx ++ ev).
+Proof.
+  intros [H1 H2 H3 H4 H5 H6 H7 H8 H9 H10] pre ctx ev W Sm C8.
+  destruct (shapes_of Orc JO ft fd H3 H4 H5 H6 H7 H8 H9 H10 _ W Sm C8) as (Fs & _).
+  apply Forall_app in Fs as [Fp Fs]. apply Forall_app in Fs as [Fc Fe].
+  eapply json_context_splice; eauto.
 Qed.
